@@ -303,8 +303,9 @@ def main():
             "samples": [s for p in parts for s in p["samples"]][:3],
             "distinct_keys_sample": distinct[:40], "exhaustive": False, "inconclusive": inconclusive,
             "known_findings_observed": known_seen, "new_violation_signatures": new_sigs,
+            "violation_counts": {s: len(by_sig[s]) for s in new_sigs},
         },
-        "violations": [{"sig": s, "count": len(by_sig[s])} for s in new_sigs],
+        "violations": len(new_sigs),
     }
     os.makedirs(os.path.join(ROOT, "evidence"), exist_ok=True)
     json.dump(ev, open(os.path.join(ROOT, "evidence/C30.json"), "w"), indent=1)
